@@ -21,7 +21,7 @@ EXPECTED_PROBES = ['ping_between_fragments', 'many_pings_one_read',
                    'ping_in_reply_read', 'ping_then_close_same_read',
                    'auto_pong_off', 'ping_after_client_close',
                    'pong_write_failed', 'app_write_after_pong_checked',
-                   'violation_behind_pings']
+                   'violation_behind_pings', 'compression_negotiated']
 
 
 def plan(tier):
@@ -47,7 +47,8 @@ def make_case(family, i, rng, tier):
                            for _ in it['inner']]
             items.append(it)
     case = {'items': items, 'auto_pong': rng.random() < 0.75,
-            'react': rng.random() < 0.6}
+            'react': rng.random() < 0.6,
+            'compress': rng.random() < 0.25}
     if rng.random() < 0.3:
         case['sclose'] = {'code': 1000, 'reason': u'done'}
     mode = rng.choice(['plain', 'plain', 'app_close', 'fault', 'bad_tail'])
@@ -101,7 +102,12 @@ def build(case, with_fault=True):
         tail = [{'op': 'await_close', 'timeout': 5000000}, S.eof()]
     else:
         tail = [S.eof(after=1000000)]
-    sc = ST.stream_scenario(case, enc, tail, app=app,
+    extra, ws = (), None
+    if case.get('compress'):
+        extra = [b'Sec-WebSocket-Extensions: permessage-deflate']
+        ws = {'compress': True}
+    sc = ST.stream_scenario(case, enc, tail, app=app, extra_headers=extra,
+                            ws=ws,
                             connect={'ping_rate': 0, 'poll': 5,
                                      'auto_pong': case.get('auto_pong', True)})
     if with_fault and case.get('mode') == 'fault':
@@ -244,7 +250,14 @@ def execute(case):
         res.xobs.append('C07/' + k)
         if k in ('hang', 'escaped'):
             res.bad('C14/%s/%s' % (tag, k), m)
-    for k, m in oracle.wire_problems(wire, False):
+    if case.get('compress'):
+        res.stats['probe:compression_negotiated'] += 1
+        for f in wire.frames:
+            if f.opcode == peer.OP_PONG and f.rsv1:
+                res.bad('C14/compressed/pong_with_rsv1',
+                        'a Pong was written with RSV1 set: %r' % f)
+                break
+    for k, m in oracle.wire_problems(wire, bool(case.get('compress'))):
         res.xobs.append('C03/' + k)
     res.nontrivial = len(ping_events) >= 1
     res.sig = '%s|%s|%s|%s' % (tag, ','.join(n[:3] for n in names),
